@@ -105,12 +105,12 @@ Section Pts.
       assert (Hbody : forall b, res_pts (expr_pts P)
                 (if kind_is sk_BlockExpr b
                  then let* stmts := lower_block_statements K b in
-                      Ok (match into_then_expr stmts with Some e => e | None => error_without_span end)
+                      Ok (match into_then_expr stmts with Some e => e | None => unit_without_span end)
                  else k_expr K b)).
       { intros b. destruct (kind_is sk_BlockExpr b); [|apply HE].
         bindp (all_list (stmt_loc_pts P)); [apply (lower_block_statements_pts P K HK)|].
         cbn [res_pts]. pose proof (into_then_expr_pts P _ H2) as Hi.
-        destruct (into_then_expr a0); [exact Hi | apply error_without_span_pts; exact HP0]. }
+        destruct (into_then_expr a0); [exact Hi | apply unit_without_span_pts; exact HP0]. }
       repeat pstep; try exact I;
         (bindp (expr_pts P); [apply Hbody|];
          cbn [res_pts opt_pstmt_pts all_opt pstmt_pts]; repeat split; try assumption; apply location_pts; assumption).
